@@ -233,6 +233,10 @@ func c12Case(env *Env, tape *sim.Tape) *CaseOut {
 			op.ReqHeader = http.Header{"Range": {"bytes=2-5"}, "If-Modified-Since": {"Mon, 02 Jan 2006 15:04:05 GMT"}, "Content-Type": {"text/plain"}}
 		case 6:
 			op.ReqHeader = http.Header{}
+		case 7:
+			// the client offers a protocol upgrade (curl --http2 on cleartext, a WebSocket
+			// handshake); the handler ignores it and answers with an ordinary document
+			op.ReqHeader = http.Header{"Connection": {"Upgrade, HTTP2-Settings"}, "Upgrade": {[]string{"h2c", "websocket"}[(mask>>21)%2]}, "Http2-Settings": {"AAMAAABkAAQAAP__"}}
 		}
 		expectMT = op.ContentType
 		if expectMT == "" {
